@@ -52,14 +52,23 @@ class Work:
 # building the harness against /repo's current working tree
 
 def build_harness(work, race=False):
-    shutil.copy(os.path.join(REPO, "go.sum"), os.path.join(HARNESS, "go.sum"))
+    hdir = HARNESS
+    if REPO != "/repo":
+        # evaluation against a scratch worktree (seeded mutants): a private copy of the
+        # harness module whose replace directive points there
+        hdir = work.path("harness-src")
+        if not os.path.isdir(hdir):
+            shutil.copytree(HARNESS, hdir)
+            gm = open(os.path.join(hdir, "go.mod")).read().replace("=> /repo", "=> " + REPO)
+            open(os.path.join(hdir, "go.mod"), "w").write(gm)
+    shutil.copy(os.path.join(REPO, "go.sum"), os.path.join(hdir, "go.sum"))
     out = work.path("harness.test" + (".race" if race else ""))
     cmd = ["go", "test", "-c", "-tags", "verif", "-o", out]
     if race:
         cmd.append("-race")
     cmd.append(".")
     t0 = time.time()
-    r = subprocess.run(cmd, cwd=HARNESS, env=goenv(), capture_output=True, text=True)
+    r = subprocess.run(cmd, cwd=hdir, env=goenv(), capture_output=True, text=True)
     if r.returncode != 0:
         raise Infra("harness build failed against the current tree:\n" + r.stdout + r.stderr)
     log("built harness in %.1fs" % (time.time() - t0))
@@ -142,7 +151,7 @@ def gen_scenarios(work, module, consts, num, depth, seed, tag, prefix, timeout=6
     rc, out, wall = tlc(work, module, cfg,
                         ["-simulate", "num=%d" % num, "-depth", str(depth + 3), "-seed", str(seed)],
                         timeout, workers=1, tag=tag)
-    if "Error:" in out and "SCN" not in out:
+    if "Error:" in out:
         raise Infra("scenario generation failed (%s):\n%s" % (tag, out[-3000:]))
     scns, seen = [], set()
     for m in re.finditer(r'<<"SCN", (".*")>>', out):
@@ -264,7 +273,11 @@ def compact(m):
 
 def compact_input(i):
     o = {k: v for k, v in i.get("o", {}).items() if v not in (0, "", [], False, None)}
-    d = {k: v for k, v in i.items() if k not in ("o", "join", "f", "hm", "with") and v not in (0, "", [], None)}
+    d = {k: v for k, v in i.items() if k not in ("o", "join", "f", "hm", "with", "hello", "resp") and v not in (0, "", [], None)}
+    if i.get("op") == "hello":
+        d["hello"] = {k: v for k, v in (i.get("hello") or {}).items() if v not in (0, "", [], False, None)}
+    if i.get("op") == "auth":
+        d["resp"] = i.get("resp")
     if (i.get("hm") or {}).get("t"):
         d["hm"] = i["hm"]
     if i.get("with"):
@@ -403,6 +416,8 @@ def write_replay(prop, n, data):
 
 def write_evidence(prop, tier, seed, level, coverage, assumptions, wall, violations):
     d = os.path.join(VERIF, "evidence")
+    if REPO != "/repo":
+        d = os.path.join(VERIF, "work", "evidence-scratch")   # runs against a scratch worktree are not evidence
     os.makedirs(d, exist_ok=True)
     ev = {"property_id": prop, "tier": tier, "seed": seed, "level": level, "coverage": coverage,
           "assumptions": assumptions, "wall_s": round(wall, 1), "violations": violations}
